@@ -73,7 +73,13 @@ def run_for(prop: str, repo: str, *, raise_on_failure: bool = True) -> Dict[str,
     from .selftest_variants import VARIANTS
     vs = [v for v in VARIANTS if v["prop"] == prop]
     _, base_keys = _fired(prop, repo, None)
-    res = [run_variant(v, repo, base_keys) for v in vs]
+    jobs = int(os.environ.get("FORMULINT_JOBS", "0") or 0) or min(16, os.cpu_count() or 1)
+    if jobs > 1 and len(vs) > 3:
+        import multiprocessing
+        with multiprocessing.get_context("fork").Pool(jobs) as pool:
+            res = pool.starmap(run_variant, [(v, repo, base_keys) for v in vs])
+    else:
+        res = [run_variant(v, repo, base_keys) for v in vs]
     failed = [r for r in res if r["status"] == "failed"]
     out = {
         "variants": len(vs),
